@@ -61,6 +61,7 @@ type Thread struct {
 	crashing bool
 	done     bool
 	blocked  bool
+	started  bool
 	result   Value
 	name     string
 }
